@@ -124,8 +124,16 @@ func (s *Shape) JSONLawFile(pkg, name string) string {
 		f := s.Fields[i]
 		je := s.jsonExpect(f)
 		wrong := f.Kind.JWrong
+		// an empty non-nil slice / map is dropped by omitempty: the round trip is demanded of it only
+		// under a tag that does not carry omitempty
+		lossy := f.Kind.JLossy
+		if je.Visible && strings.Contains(je.TwinTag, ",omitempty") {
+			for b := 0; b < 2; b++ {
+				lossy[b] = lossy[b] || f.Kind.JEmptyNonNil[b]
+			}
+		}
 		fmt.Fprintf(&b, "\t\t\t{name: %q, jsonName: %q, visible: %v, ambig: %v, fails: %v, empty: [2]bool{%v, %v}, lossy: [2]bool{%v, %v}, wrong: %q,\n\t\t\t\tvals: [2]any{%s, %s}},\n",
-			f.Name, je.Name, je.Visible, je.Ambig, f.Kind.JFail, f.Kind.JEmpty[0], f.Kind.JEmpty[1], f.Kind.JLossy[0], f.Kind.JLossy[1], wrong, vals[i][0], vals[i][1])
+			f.Name, je.Name, je.Visible, je.Ambig, f.Kind.JFail, f.Kind.JEmpty[0], f.Kind.JEmpty[1], lossy[0], lossy[1], wrong, vals[i][0], vals[i][1])
 	}
 	b.WriteString("\t\t},\n")
 	var lit, sels, tl []string
